@@ -76,6 +76,10 @@ func verifHarnessC19() {
 	}
 	cmds := vCmdsFromMask(verifParam("cmds"))
 	scores := []float64{-1.5, 0, 2}
+	if verifParam("scoreset") == 1 {
+		// scores that are different but very close, tiny, huge, and signed zero: an update must store exactly what was given
+		scores = []float64{1, 1.000000000001, 1e-10, 2e-10, -1e300, 1e300}
+	}
 	now := 0 // logical step; the engine clock advances 1 ms per step
 	for step := 0; step < K; step++ {
 		verifClockStep(false)
